@@ -2,7 +2,12 @@
 EXTENDS HugrBuilder, Json
 RootBQ == <<BoolT, QubitT>>
 RootB == <<BoolT>>
-View == <<nodes, links, ctxs, pending, done, used>>
-EmitFinished == (Finished /\ hist # <<>>) => PrintT(ToJson([hist |-> hist, doc |-> Doc, counts |-> {<<n, NumOut(NodeOp(n))>> : n \in done}]))
+View == <<nodes, links, ctxs, pending, done, used, refused, IF refused = "" THEN <<>> ELSE hist[Len(hist)]>>
+CONSTANT SampleK            \* emit every SampleK-th finished state (1 = all)
+RECURSIVE LinkSum(_)
+LinkSum(j) == IF j = 0 THEN 0 ELSE links[j][1] + 3 * (links[j][2] + 1) + 5 * links[j][3] + 7 * (links[j][4] + 1) + LinkSum(j - 1)
+SampleHash == (LinkSum(Len(links)) + 11 * NNodes) % SampleK        \* a function of the state: the sample does not depend on the search order
+EmitFinished == (Finished /\ hist # <<>> /\ SampleHash = 0) => PrintT(ToJson([hist |-> hist, doc |-> Doc, counts |-> {<<n, NumOut(NodeOp(n))>> : n \in done}]))
 DebugFail == (Finished /\ ~(User(Doc) /\ Builder(Doc))) => PrintT(<<"FAIL", Failing(Doc), hist>>)
+EmitRefused == (refused # "" /\ SampleHash = 0) => PrintT(ToJson([hist |-> hist, refused |-> refused]))
 =============================================================================
